@@ -1141,20 +1141,7 @@ Proof.
   assert (E : cgio_close_file Faithful fuel (mkio a2 [Some 0; None; None; None; None] 1) 1 = None).
   { unfold cgio_close_file. cbn -[adfi_close_file]. unfold adfi_close_file.
     destruct (cycle_diverges fuel [FEnter 0] 0 I) as [m ->]. reflexivity. }
-  change (match
-    match cgio_close_file Faithful fuel (mkio a2 [Some 0; None; None; None; None] 1) 1 with
-    | Some (s1, r) => Some (s1, ResClose r)
-    | None => None
-    end
-  with
-  | Some (s1, x) =>
-      match run Faithful fuel w2 s1 (track [1] (OClose 1) x) [] with
-      | Some (s2, p2, xs) => Some (s2, p2, ResOpen (Some 1) :: ResWalk true :: x :: xs)
-      | None => None
-      end
-  | None => None
-  end = None) || idtac.
-  try rewrite E. try reflexivity.
+  rewrite E. reflexivity.
 Qed.
 
 (* the repair FixA terminates on W2 but the two files then keep each other open: a reference-count cycle *)
